@@ -182,6 +182,10 @@ fn alias_name_main(name: &'static str) -> impl Fn(&mut VEnv, Vec<Field>) -> Buil
     move |env, _args| {
         let st = env.exit_status.0;
         let off = stdin_offset(env);
+        PROBES.set(PROBES.get() + 1);
+        if PROBES.get() > 5000 {
+            panic!("runaway: more than 5000 probe calls in one run");
+        }
         Box::pin(async move {
             let text = format!("{}:{}@{}\n", st, enc_str(&format!("@{name}")), off);
             match env.system.write_all(Fd::STDOUT, text.as_bytes()).await {
@@ -435,8 +439,29 @@ fn oracle(c: &Case, script: &[u8], obs: &Obs) -> String {
     "ok".into()
 }
 
+/// the case being run and when it started: a watchdog thread reports a hang of the real code (a
+/// loop that never yields cannot be interrupted from inside) as the observation `TIMEOUT` and ends
+/// the process
+static CURRENT: std::sync::Mutex<Option<(Instant, String)>> = std::sync::Mutex::new(None);
+
+fn start_watchdog() {
+    std::thread::spawn(|| {
+        loop {
+            std::thread::sleep(Duration::from_millis(500));
+            let cur = CURRENT.lock().unwrap().clone();
+            if let Some((t0, case)) = cur {
+                if t0.elapsed() > Duration::from_secs(30) {
+                    println!("{case}\tTIMEOUT\tFAIL:hang");
+                    std::process::exit(0);
+                }
+            }
+        }
+    });
+}
+
 fn run_case(line: &str) -> (String, String) {
     let Some(c) = parse_case(line) else { return ("bad-case".into(), "-".into()) };
+    *CURRENT.lock().unwrap() = Some((Instant::now(), line.to_string()));
     let script: Vec<u8> = c.units.concat();
     let c2 = c.clone();
     let s2 = script.clone();
@@ -451,6 +476,7 @@ fn run_case(line: &str) -> (String, String) {
         oracle_text = format!("FAIL:{oracle_text}");
     }
     let _ = &c.feed_text;
+    *CURRENT.lock().unwrap() = None;
     (obs, oracle_text)
 }
 
@@ -856,6 +882,7 @@ fn main() {
         return;
     }
     let o = Opts::from_args();
+    start_watchdog();
     if o.extra.first().map(|s| s.as_str()) == Some("--show") {
         let (fixed, _) = o.fixed_cases();
         for c in fixed {
